@@ -1,4 +1,5 @@
 import Logrange.Proofs.Registry
+import Logrange.Proofs.RegistrySave
 import Logrange.Generated.C19
 /-!
 # C19 — Pipe registry: unique names, alphabetical paginated listing, idempotent ensure
@@ -459,6 +460,43 @@ theorem cex_create_without_save :
   decide
 
 example : (prun cfgNow (fun _ => true) ⟨[], none⟩ [.op (.create pA true), .op (.create pB true), .op (.delete [97]), .restart]).mem = [pB] := by
+  decide
+
+
+/-! ## concurrent creates and the registry file -/
+
+/-- **An acknowledged create is in pipes.dat, under every interleaving**: any number of concurrent callers of
+`CreatePipe` (same or different names), any schedule of their atomic steps (the two critical sections, the
+snapshot `savePipes` takes under the service lock, the write of the file): every caller that has been told
+"created" finds its definition on disk — so a crash at any later point keeps it. `savePipes` being serialized
+by its own mutex is read from the source on every run. -/
+theorem concurrent_acknowledged_creates_on_disk (r : Reg) (wants : List Pipe) (sched : List Nat) :
+    let s := srun Generated.C19.savePipesSerialized ⟨r, r, none, wants.map (fun w => (w, SPc.start))⟩ sched
+    ∀ (a : Nat) (p : Pipe), s.pcs[a]? = some (p, SPc.done true) → p ∈ s.disk := by
+  have hfact : Generated.C19.savePipesSerialized = true := by decide
+  rw [hfact]
+  intro s a p ha
+  have hinit : SInv ⟨r, r, none, wants.map (fun w => (w, SPc.start))⟩ := by
+    refine ⟨fun q hq => hq, ?_, ?_⟩
+    · intro b x hb
+      simp only [List.getElem?_map] at hb
+      cases hw : wants[b]? with
+      | none => simp [hw] at hb
+      | some w => simp only [hw, Option.map_some, Option.some.injEq] at hb; subst hb; simp [SOk]
+    · intro b hb; cases hb
+  have h := (srun_inv _ sched hinit).2.1 a (p, SPc.done true) ha
+  simpa [SOk] using h
+
+/-- why the serialization matters (found by an independent reviewer of the F07 repair): without it two calls
+can take their snapshots in one order and write them in the other — the second caller is told "created" and
+its definition is not on disk. The model's other branch. -/
+theorem cex_unserialized_save_loses_acknowledged_create :
+    let s := srun false ⟨[], [], none, [(pA, SPc.start), (pB, SPc.start)]⟩ [0, 0, 0, 1, 1, 1, 1, 0]
+    s.pcs[1]? = some (pB, SPc.done true) ∧ pB ∉ s.disk := by
+  decide
+
+/-- the same schedule with the serialized `savePipes`: caller 1 waits for caller 0's write, both are on disk -/
+example : (srun true ⟨[], [], none, [(pA, SPc.start), (pB, SPc.start)]⟩ [0, 0, 0, 1, 1, 1, 0, 1, 1]).disk = [pB, pA] := by
   decide
 
 end Logrange.Props.C19
